@@ -848,7 +848,8 @@ def unpack_special_typing_primitive(spec: ValueSpec) -> Optional[Expression]:
             return UnpackerRegistry.get(spec.copy(type=str))
         elif is_self(spec.type):
             method_name = spec.builder.get_unpack_method_name(
-                format_name=spec.builder.format_name
+                type_args=spec.builder.initial_type_args,
+                format_name=spec.builder.format_name,
             )
             method_loc = (
                 spec.builder.cls if spec.builder.is_nailed else spec.attrs
@@ -859,6 +860,7 @@ def unpack_special_typing_primitive(spec: ValueSpec) -> Optional[Expression]:
                 # not hasattr(spec.builder.cls, method_name)
                 and (
                     spec.builder.get_unpack_method_name(
+                        type_args=spec.builder.initial_type_args,
                         format_name=spec.builder.format_name,
                         decoder=spec.builder.decoder,
                     )
@@ -871,6 +873,7 @@ def unpack_special_typing_primitive(spec: ValueSpec) -> Optional[Expression]:
             ):
                 builder = spec.builder.__class__(
                     spec.builder.cls,
+                    spec.builder.initial_type_args,
                     dialect=(
                         spec.builder.dialect
                         if not spec.builder.is_nailed
